@@ -530,3 +530,100 @@ class cpu_limit:
         signal.setitimer(signal.ITIMER_VIRTUAL, 0)
         signal.signal(signal.SIGVTALRM, self._old)
         return False
+
+
+class Pristine:
+    """A copy of this process forked before it processed anything.  Every
+    request is answered by a further fork of that copy, so each answer comes
+    from a process in which nothing else has been loaded, dumped or decoded:
+    the reference for "this input alone".  Create it first thing in a worker.
+    fn(request) must return something picklable."""
+
+    def __init__(self, fn):
+        import pickle
+        self._pickle = pickle
+        req_r, req_w = os.pipe()
+        res_r, res_w = os.pipe()
+        pid = os.fork()
+        if pid == 0:
+            code = 0
+            try:
+                os.close(req_w)
+                os.close(res_r)
+                self._serve(fn, req_r, res_w)
+            except BaseException:
+                code = 1
+            finally:
+                os._exit(code)
+        os.close(req_r)
+        os.close(res_w)
+        self.pid, self._w, self._r = pid, req_w, res_r
+        self.requests = 0
+
+    @staticmethod
+    def _read(fd, n):
+        buf = b""
+        while len(buf) < n:
+            chunk = os.read(fd, n - len(buf))
+            if not chunk:
+                raise EOFError
+            buf += chunk
+        return buf
+
+    def _send(self, fd, obj):
+        data = self._pickle.dumps(obj)
+        os.write(fd, len(data).to_bytes(8, "big"))
+        view = memoryview(data)
+        while view:
+            k = os.write(fd, view[:65536])
+            view = view[k:]
+
+    def _recv(self, fd):
+        n = int.from_bytes(self._read(fd, 8), "big")
+        return self._pickle.loads(self._read(fd, n))
+
+    def _serve(self, fn, req_r, res_w):
+        while True:
+            try:
+                req = self._recv(req_r)
+            except EOFError:
+                return
+            r, w = os.pipe()
+            pid = os.fork()
+            if pid == 0:
+                code = 0
+                try:
+                    os.close(r)
+                    try:
+                        out = ("ok", fn(req))
+                    except BaseException as e:  # noqa: B902
+                        out = ("error", f"{type(e).__name__}: {e}"[:300])
+                    self._send(w, out)
+                except BaseException:
+                    code = 1
+                finally:
+                    os._exit(code)
+            os.close(w)
+            try:
+                out = self._recv(r)
+            except EOFError:
+                out = ("error", "pristine child died without an answer")
+            os.close(r)
+            os.waitpid(pid, 0)
+            self._send(res_w, out)
+
+    def ask(self, request):
+        self.requests += 1
+        self._send(self._w, request)
+        status, out = self._recv(self._r)
+        if status != "ok":
+            raise RuntimeError(f"pristine reference failed: {out}")
+        return out
+
+    def close(self):
+        try:
+            os.close(self._w)
+            os.close(self._r)
+            os.waitpid(self.pid, 0)
+        except OSError:
+            pass
